@@ -208,7 +208,16 @@ def exhaustive16(runmod, prop, group, tier, seed, st, jobs):
             chunks = [(a, a + 64) for a in starts]
         for lo, hi in chunks:
             tasks.append({'bin': paths['exh'], 'cfg': cname, 'line': '%s %s d%d d%d' % (cname, prop.BIN, lo, hi)})
+    # bulk mode: structured pseudo-random operand pairs on every digit-type representation of the 32/64/128-bit widths
+    nbulk, per = (1, 2000000) if tier != 'thorough' else (48, 4000000)
+    bulk_cfgs = ['u8x4', 'u16x2', 'u32x1', 'u8x8', 'u16x4', 'u32x2', 'u64x1', 'u8x16', 'u16x8', 'u32x4', 'u64x2']
+    bulk_cfgs += ['i' + c[1:] for c in bulk_cfgs]
+    for cname in bulk_cfgs:
+        for k in range(nbulk):
+            tasks.append({'bin': paths['exh'], 'cfg': cname, 'bulk': True,
+                          'line': '%s %s d%d d%d d1' % (cname, prop.BIN, rng.getrandbits(62) | 1, per if prop.BIN != 'c08' else per // 4)})
     evals = bad = 0
+    bulk_evals = 0
     with cf.ProcessPoolExecutor(max_workers=jobs) as ex:
         for t, line, err in ex.map(_exh_task, tasks, chunksize=1):
             if err:
@@ -218,20 +227,24 @@ def exhaustive16(runmod, prop, group, tier, seed, st, jobs):
             evals += o[0]
             st['events'] += o[0]
             st['requests'] += 1
-            st['ops']['exhaustive16:' + t['cfg']] += o[0]
+            st['ops'][('bulk-vs-primitive:' if t.get('bulk') else 'exhaustive16:') + t['cfg']] += o[0]
+            if t.get('bulk'):
+                bulk_evals += o[0]
             if o[1]:
                 bad += o[1]
                 st['violations'] += o[1]
-                runmod.add_violation(st, prop, core.Cfg(t['cfg']), 'rel', t['line'], 'exhaustive16', o[2].decode('utf8', 'replace'),
+                runmod.add_violation(st, prop, core.Cfg(t['cfg']), 'rel', t['line'], 'bulk-vs-primitive' if t.get('bulk') else 'exhaustive16', o[2].decode('utf8', 'replace'),
                                      'the Rust primitive of the same width (executed in-process)', '%d of the swept operand pairs disagree with the primitive' % o[1])
     full = tier == 'thorough'
     label = '16-bit types %s vs the primitive: %s' % (', '.join(('u8x2', 'i8x2', 'u16x1', 'i16x1')),
                                                        'ALL 2^32 operand pairs' if full else '512 of 65536 first operands x all second operands')
     st['exhaustive'].append(label)
-    st['classes']['exhaustive sweep against the primitive (8/16-bit)'] += len(tasks)
+    st['classes']['exhaustive sweep against the primitive (8/16-bit)'] += len(tasks) - len(bulk_cfgs) * nbulk
+    st['classes']['bulk differential run against the primitive (32/64/128-bit, every digit type)'] += len(bulk_cfgs) * nbulk
     st['nontrivial'].add(core.h64('exh/%s/%s' % (prop.PROP, tier)))
-    print('[%s] exhaustive16 pass: %d evaluations, %d mismatches, %.0fs' % (prop.PROP, evals, bad, time.time() - t0), flush=True)
-    return {'evaluations': evals, 'mismatches': bad, 'complete_pair_space': full, 'wall_s': round(time.time() - t0, 1)}
+    print('[%s] exhaustive16 + bulk-vs-primitive pass: %d evaluations (%d of them bulk at 32/64/128 bits), %d mismatches, %.0fs' % (prop.PROP, evals, bulk_evals, bad, time.time() - t0), flush=True)
+    return {'evaluations': evals, 'mismatches': bad, 'complete_pair_space_16bit': full, 'bulk_evaluations_32_64_128bit': bulk_evals,
+            'bulk_operand_pairs_per_configuration': nbulk * per, 'wall_s': round(time.time() - t0, 1)}
 
 
 # ------------------------------------------------------------------ reach audit (line coverage of the property's anchor files)
